@@ -43,6 +43,22 @@ def comp_desc(comp):
     return {"name": comp._params["name"], "cls": type(comp).__name__, "pay": comp_pay(comp)}
 
 
+def node_of(s, ref):
+    """node index of the component a reference (component name or rail name) denotes, -1 for none - resolved from the
+    name and rail registries by the harness itself (the library's own helper is not part of what is observed)"""
+    at = s._g.attrs
+    if not isinstance(ref, str):
+        return -1
+    if ref in at["nodes"]:
+        return at["nodes"][ref]
+    if ref == "":
+        return -1
+    for name, rail in at["rails"].items():
+        if rail == ref and name in at["nodes"]:
+            return at["nodes"][name]
+    return -1
+
+
 def project(s):
     g = s._g
     at = g.attrs
@@ -78,7 +94,7 @@ def project(s):
             ok = False
             if isinstance(refs, list) and len(refs) == len(preds):
                 try:
-                    ridx = [s._get_index(r) for r in refs]
+                    ridx = [node_of(s, r) for r in refs]
                     ok = sorted(ridx) == sorted(preds)
                 except Exception:
                     ok = False
